@@ -63,6 +63,16 @@ def run(tier, seed):
         if not recs:
             raise vlib.ToolError("no behaviours exported by " + cfg)
         behaviours += [to_behaviour(len(behaviours) + i, x) for i, x in enumerate(recs)]
+    # ---- ill-formed sub-commands are rejected at instantiation
+    r = vlib.tlc_must_pass(vlib.tlc("MC_C12_wf", "MC_C12_wf", workers=2, timeout=600))
+    res.add_tlc(r)
+    wf = r["records"].get("WF", [])
+    if len(wf) < 500:
+        raise vlib.ToolError("too few well-formedness cases: %d" % len(wf))
+    for x in wf:
+        behaviours.append({"id": "wf%d" % len(behaviours), "ctx": "minimal", "kind": "wellformed",
+                           "calls": [{"do": "op", "def": x["def"], "as": "h", "ok": bool(x["ok"])}],
+                           "spec": {"def": x["def"], "data": [], "apps": []}})
     if tier == "thorough":
         # long random programs (up to 12 steps) by simulation
         r = vlib.tlc("MC_C12", "MC_C12_sim", workers=1, simulate=20000, depth=80, seed=seed, timeout=1500)
